@@ -53,6 +53,60 @@ def stream_items(fo, rx=r"operator<<$"):
     return out
 
 
+def check_field_width(rep, F):
+    """R8.6: DL_POLY files are read by splitting at blanks, and the writer separates numbers only by the field width.  A real number printed with precision p in
+    general notation is at most p + 6 characters long (sign, point, e-XX), so a field of width w keeps a blank in front of it iff w >= p + 7."""
+    rep.rule("R8.6", "DL_POLY writer: every real number that is separated from its left neighbour by its field width only is printed in a field at least 7 characters "
+                     "wider than its precision (general notation: sign, decimal point and a two-digit exponent), so two numbers can never fuse into one token")
+    f = F.one(C + "DLPOLYTrajectoryWriter::Write")
+    rep.analysed(f)
+    fo = Fold(f, record_calls=r"operator<<$").run()
+    notation, prec, width = None, None, None
+    prev_sep = True
+    n_fields = 0
+    bad = None
+    for v, e in stream_items(fo):
+        sv = str(v)
+        ty = (e["node"].get("args") or [{}, {}])[1].get("type", "") if e["node"].get("args") else ""
+        m = re.match(r"^setprecision\((.*)\)$", sv)
+        if m:
+            prec = int(m.group(1)) if re.match(r"^\d+$", m.group(1)) else None
+            continue
+        m = re.match(r"^setw\((.*)\)$", sv)
+        if m:
+            width = int(m.group(1)) if re.match(r"^\d+$", m.group(1)) else None
+            continue
+        if sv in ("std::fixed",):
+            notation = "fixed"
+            continue
+        if sv in ("std::scientific",):
+            notation = "scientific"
+            continue
+        if sv in ("std::defaultfloat",) or (sv.startswith("resetiosflags(") and "fixed" in sv):
+            notation = "general"
+            continue
+        if sv == "std::endl" or (sv.startswith('"') and (sv.endswith('\\n"') or " " in sv)):
+            prev_sep = True
+            width = None
+            continue
+        if ty.replace("const ", "") == "double":
+            if not prev_sep and notation in ("general", "scientific"):
+                n_fields += 1
+                need = None if prec is None else prec + (7 if notation == "general" else 8)
+                if width is None or need is None or width < need:
+                    bad = bad or ("a real number (%s) follows another number in a field of width %s with precision %s in %s notation: printed it can be %s characters long, "
+                                  "so a small negative value fills the field and fuses with its left neighbour - the blank-splitting reader cannot read the file back" % (
+                                      sv[:50], width, prec, notation, "?" if prec is None else prec + (6 if notation == "general" else 7)), e)
+            prev_sep = False
+            width = None
+            continue
+        prev_sep = sv.startswith('"') and sv.endswith(' "')
+        width = None
+    rep.floor("R8.6", n_fields, 6, "width-separated real fields of the DL_POLY writer")
+    rep.check(bad is None, "R8.6", "dlpoly|field-width", "width >= precision + 7 for every width-separated real field (%d fields)" % n_fields,
+              "DLPOLYTrajectoryWriter::Write: %s" % (bad[0] if bad else ""), f.loc(bad[1]["node"]) if bad else f.loc(), sample=True)
+
+
 def run(rep, tier):
     rep.explanation = ("TABLE: for each trajectory format the writer's output items (quantity, component / box element, "
                        "constant factor) are extracted from the folded fprintf / ostream<< / boost::format arguments and the "
@@ -81,6 +135,7 @@ def run(rep, tier):
     check_lammps(rep, F, consts)
     check_gro(rep, F, consts)
     check_dlpoly(rep, F, consts)
+    check_field_width(rep, F)
     check_xyz_pdb(rep, F, consts)
     check_pdb_box(rep, F)
     check_registry(rep, F)
